@@ -150,6 +150,7 @@ uint64_t plan_signature(const Plan* p) {
 }
 
 /* ---------------- run context ---------------- */
+uint64_t g_sim_root = 1;
 int  g_sim_verbose = 0;
 long g_sim_run_index = 0;
 static uint64_t g_evhash;
@@ -186,6 +187,7 @@ void sim_run_begin(const Plan* p) {
     g_plan_sig = plan_signature(p); g_run_seed = p->seed;
     printf("BEGIN %ld seed=%llu\n", g_sim_run_index, (unsigned long long)p->seed);
     fflush(stdout);
+    fprintf(stderr, "@run %ld\n", g_sim_run_index);
 }
 void sim_event(const char* fmt, ...) {
     char buf[512]; va_list ap; int n; int i;
